@@ -407,17 +407,23 @@ def coq_project_sync():
 
 
 def coq_make(targets, timeout=1500):
+    """make the given .vo targets. Only the regeneration of _CoqProject/Makefile is serialised (several checks or
+    developers may run make at once; a collision on a shared dependency shows up as a transient error, hence one retry)."""
     import fcntl
     os.makedirs(COQ, exist_ok=True)
     lock = open(os.path.join(COQ, ".build.lock"), "w")
     fcntl.flock(lock, fcntl.LOCK_EX)
     try:
         coq_project_sync()
-        rc, out = sh(["make", "-j16"] + list(targets), cwd=COQ, timeout=timeout)
-        return rc == 0, out
     finally:
         fcntl.flock(lock, fcntl.LOCK_UN)
         lock.close()
+    rc, out = sh(["make", "-j16"] + list(targets), cwd=COQ, timeout=timeout)
+    if rc != 0 and rc != 124:
+        time.sleep(2)
+        rc, out2 = sh(["make", "-j16"] + list(targets), cwd=COQ, timeout=timeout)
+        out = out + "\n[retry]\n" + out2
+    return rc == 0, out
 
 
 def parse_assumptions(out, theorems):
